@@ -15,11 +15,7 @@ PROP = "C13"
 
 
 def type_methods(bg):
-    out = []
-    for name, (d, params, ret) in bg.res.items():
-        if d["sink"]["sink"] == "dedup_type":
-            out.append(name)
-    return sorted(out)
+    return [n for n in bg.emitting_methods() if bg.sink_of(n) == "dedup_type"]
 
 
 def histories(bg, rng, tier):
@@ -46,7 +42,16 @@ def histories(bg, rng, tier):
         seq = [tcall(name, 0, None), tcall(name, 0, None), tcall(name, 1, None), tcall(name, 0, 0x500), tcall(name, 0, None), "id", tcall(name, 1, None)]
         if all(seq):
             yield seq
-    others = ["id", "constant_bit32 1 5", "constant_bit32 1 5", "nop", "i_add 1 _ 2 3", "i_add 1 77 2 3", "begin_function 1 _ 0 3",
+    # every method with an optional result id, failing (no block selected) with an implicit and an explicit id
+    for name in bg.emitting_methods():
+        pn = [p for p, _ in bg.methods[name]["params"]]
+        if "result_id" in pn and bg.sink_of(name) == "block":
+            for ex in ("_", "4d"):
+                c = bg.call(name, explicit_id=ex)
+                if c:
+                    yield ["id", c, "id", "type_void"]
+                    yield ["begin_function 1 _ 0 3", "begin_block _", c, "id", "ret", "end_function"]
+    others = ["id", "ext_inst 1 4d 2 3 []", "constant_bit32 1 5", "constant_bit32 1 5", "nop", "i_add 1 _ 2 3", "i_add 1 77 2 3", "begin_function 1 _ 0 3",
               "begin_block _", "ret", "end_function", "function_parameter 1", "variable 1 _ 7 _", "undef 1 _", "string S61",
               "ext_inst_import S61", "decoration_group", "load 1 _ 2 _ []", "ext_inst 1 _ 2 3 []", "constant_true 1", "spec_constant_bit64 1 ffffffffffff",
               "begin_block 88", "begin_function 1 99 0 3", "undef 1 66", "type_opaque S62", "constant_composite 1 [2,3]"]
@@ -86,6 +91,7 @@ def run(rep):
         rng = random.Random(rep.seed)
         lay = layout.Layout(g)
         bg = bldgen.BuilderGen(g, p.facts, rng)
+        bg.lay = lay
         hs = list(histories(bg, rng, rep.tier))
         lines = ["bld " + " | ".join(h) for h in hs]
         files, err = streams.serve_both("c13", lines, p.exe, mexe)
